@@ -378,7 +378,7 @@ def c_label_static(it, recv, a):
     (cache invariant: every entry was inserted as (k, leak(k)), see the insert event below) or a fresh leak of a copy of
     `label`, which is then cached under the key `label`."""
     label = a[0]
-    cache = VOpaque("havoc:map#1")
+    cache = VOpaque("havoc:map")
     it.ctx.exits.append(("return_if_some", VOpaque("get", [cache, label]), VOpaque("some_of", [VOpaque("get", [cache, label])])))
     it.ctx.event("cache.insert", canon(label), canon(label))
     return label
